@@ -7,7 +7,7 @@ Structural premises P1..P8 checked on the AST; under them (integer fields) the l
 import ast
 
 from ..core import AnalysisError, norm, loc, walk_no_nested, attr_chain, call_name
-from ..normalize import inline, local_env, expand, canon, ctext
+from ..normalize import inline, local_env, expand, canon, ctext, branch_values, Unknown, negate, _replace_node
 from .. import fieldwise as fw
 
 CAPS = 'fim.slivers.capacities_labels:Capacities'
@@ -288,9 +288,40 @@ def run(prog, rep):
     ftxt = ast.unparse(fi)
     rep.instance('P6', f'FreeCapacity.__init__: {[norm(n) for n in fi.body if isinstance(n, ast.Assign)]}')
     assigns = {ast.unparse(n.targets[0]): n.value for n in ast.walk(fi) if isinstance(n, ast.Assign)}
-    fv = assigns.get('self.free')
-    if not (isinstance(fv, ast.BinOp) and isinstance(fv.op, ast.Sub) and ast.unparse(fv.left) == 'total'
-            and ast.unparse(fv.right) == 'allocated'):
+    # what is stored as self.free, by cases on the allocation argument (an if statement that replaces a missing allocation, or a
+    # conditional expression inside the subtraction, are the same thing)
+    def free_sink(st):
+        if isinstance(st, ast.Assign) and any(ast.unparse(t) == 'self.free' for t in st.targets):
+            return st.value
+        return None
+    try:
+        fouts = branch_values(fi.body, free_sink)
+    except Unknown as u:
+        raise AnalysisError(f'FreeCapacity.__init__ not analysable: {u}')
+    cases = set()
+    for o in fouts:
+        variants = [(list(o.conds), o.value)]
+        changed_ = True
+        while changed_:
+            changed_ = False
+            nxt = []
+            for cs_, v_ in variants:
+                ie = next((x for x in ast.walk(v_) if isinstance(x, ast.IfExp)), None)
+                if ie is None:
+                    nxt.append((cs_, v_))
+                    continue
+                changed_ = True
+                nxt.append((cs_ + [ctext(ie.test)], _replace_node(v_, ie, ie.body) if v_ is not ie else ie.body))
+                nxt.append((cs_ + [ctext(negate(canon(ie.test)))], _replace_node(v_, ie, ie.orelse) if v_ is not ie else ie.orelse))
+            variants = nxt
+        for cs_, v_ in variants:
+            key = 'none' if 'allocated is None' in cs_ else ('given' if 'allocated is not None' in cs_ else 'any')
+            cases.add((key, ctext(v_)))
+    rep.instance('P6', f'FreeCapacity.__init__: self.free by cases {sorted(cases)}')
+    good_cases = ({('none', 'total - Capacities()'), ('given', 'total - allocated')}, {('any', 'total - allocated')})
+    sub_ok = cases in good_cases
+    none_case_ok = ('none', 'total - Capacities()') in cases
+    if not sub_ok and not (cases and all(v_ in ('total - allocated', 'total - Capacities()') for _, v_ in cases)):
         rep.violation('P6', loc(free.module, fi), 'FreeCapacity.__init__', 'free is not total - allocated',
                       'FreeCapacity must compute free = total - allocated')
     # the difference is kept as computed: nothing rewrites self.free (or its fields) afterwards
@@ -315,9 +346,7 @@ def run(prog, rep):
         rep.violation('P6', loc(free.module, fi), 'FreeCapacity.__init__', f'self.free assigned {len(nfree)} times', 'free must be computed once as total - allocated')
     if ast.unparse(assigns.get('self.total', ast.Constant(None))) != 'total':
         rep.violation('P6', loc(free.module, fi), 'FreeCapacity.__init__', 'total not kept', 'FreeCapacity must keep total')
-    none_ok = any(isinstance(n, ast.If) and ast.unparse(n.test) == 'allocated is None' and
-                  'allocated = Capacities()' in ast.unparse(n) for n in ast.walk(fi))
-    if not none_ok:
+    if not none_case_ok:
         rep.violation('P6', loc(free.module, fi), 'FreeCapacity.__init__', 'None allocation not mapped to zero',
                       'a missing allocation must be treated as all-zero')
 
